@@ -32,3 +32,12 @@ for p in $pids; do wait $p || fail=1; done
 if [ $fail -ne 0 ]; then cat "$OUT"/*.log >&2; exit 1; fi
 cat "$OUT"/*.log >&2 || true
 $CC $FL -no-pie $WRAP "$OUT"/*.o -o "$OUT/cellosim" -lpthread -lm
+# a real Cello program linked without the simulator (the library's own `main` macro, the real allocator and threads): its way of
+# ending - return, exit(), uncaught exception - is driven by the heap engine (progs/exitprog.c)
+PROGS=$(dirname "$0")/../progs
+REPO_OBJS=""
+for f in "$REPO"/src/*.c; do REPO_OBJS="$REPO_OBJS $OUT/$(basename "$f" .c).o"; done
+if [ "$FLAV" != fine ] && [ "$FLAV" != asan ]; then   # (not the sanitizer build: outside the simulator its runtime objects to the conservative stack scan)
+  $CC $COMMON -c "$PROGS/exitprog.c" -o "$OUT/prog_exitprog.po"
+  $CC $FL -no-pie "$OUT/prog_exitprog.po" $REPO_OBJS -o "$OUT/exitprog" -lpthread -lm
+fi
